@@ -40,14 +40,53 @@ fn weight() -> impl Strategy<Value = f64> {
 
 fn weights() -> impl Strategy<Value = Vec<R>> {
     let len = prop_oneof![4 => 1usize..6, 3 => 6usize..20, 1 => 20usize..=64];
-    (len, any::<u16>(), 0.01f64..10.0)
-        .prop_flat_map(|(n, pos, posw)| {
-            (proptest::collection::vec(weight(), n), Just(pos), Just(posw))
+    // post-processing class: 0 as generated, 1 total within 1e-4..1e-15 of one (but not one),
+    // 2 all weights subnormal (total below 1/MAX), 3 one category with probability ~2^-30..2^-60
+    let class = prop_oneof![10 => Just(0u8), 2 => Just(1u8), 1 => Just(2u8), 2 => Just(3u8)];
+    (len, any::<u16>(), 0.01f64..10.0, class, 3.0f64..15.0, any::<bool>())
+        .prop_flat_map(|(n, pos, posw, class, mag, sign)| {
+            (proptest::collection::vec(weight(), n), Just(pos), Just(posw), Just(class), Just(mag), Just(sign))
         })
-        .prop_map(|(mut w, pos, posw)| {
+        .prop_map(|(mut w, pos, posw, class, mag, sign)| {
+            let n = w.len();
+            let at = (pos as usize * n) >> 16;
             if w.iter().all(|x| *x == 0.0) {
-                let n = w.len();
-                w[(pos as usize * n) >> 16] = posw;
+                w[at] = posw;
+            }
+            match class {
+                1 => {
+                    // moderate weights, total = 1 +- 10^-mag
+                    for x in w.iter_mut() {
+                        if *x != 0.0 {
+                            *x = x.clamp(1e-3, 1.0);
+                        }
+                    }
+                    let t: f64 = w.iter().sum();
+                    for x in w.iter_mut() {
+                        *x /= t;
+                    }
+                    let k = w.iter().position(|x| *x > 0.0).unwrap();
+                    w[k] *= 1.0 + if sign { 1.0 } else { -1.0 } * 10f64.powf(-mag);
+                }
+                2 => {
+                    for x in w.iter_mut() {
+                        if *x != 0.0 {
+                            *x = (1.0 + (*x).min(8.0)) * 1e-310;
+                        }
+                    }
+                }
+                3 => {
+                    for x in w.iter_mut() {
+                        if *x != 0.0 {
+                            *x = x.clamp(1e-2, 1.0);
+                        }
+                    }
+                    w[at] = 2f64.powf(-(20.0 + 3.0 * mag));
+                    if n == 1 {
+                        w[0] = 1.0;
+                    }
+                }
+                _ => {}
             }
             w.into_iter().map(R).collect()
         })
@@ -60,7 +99,7 @@ pub fn strategy() -> BoxedStrategy<Case> {
         prop_oneof![4 => Just(0u8), 2 => Just(1u8), 2 => Just(2u8), 6 => Just(3u8), 1 => Just(4u8)],
         any::<u64>(),
         any::<u16>(),
-        -2i8..=2,
+        prop_oneof![4 => -2i8..=2, 1 => Just(20i8), 1 => Just(-20i8), 1 => Just(40i8), 1 => Just(-40i8), 1 => Just(60i8), 1 => Just(-60i8)],
         any::<u64>(),
         0u16..100,
     )
@@ -124,6 +163,12 @@ where
     Ok(())
 }
 
+/// weights in T; the "all subnormal" class (f64 weights ~1e-310) is mapped to f32 subnormals
+fn to_weights<T: Fl>(weights: &[R]) -> Vec<T> {
+    let tiny_total = weights.iter().map(|r| r.0).sum::<f64>() < 1e-300;
+    weights.iter().map(|r| T::of(if tiny_total && T::BITS == 24 { r.0 * 1e270 } else { r.0 })).collect()
+}
+
 fn cdf_f64<T: Fl>(probs: &[T]) -> Vec<f64> {
     let mut c = Vec::with_capacity(probs.len());
     let mut s = 0.0;
@@ -138,7 +183,7 @@ fn check_t<T: Fl>(case: &Case, cov: &mut Cov) -> CheckResult
 where
     rand_distr::StandardUniform: rand_distr::Distribution<T>,
 {
-    let w: Vec<T> = case.weights.iter().map(|r| T::of(r.0)).collect();
+    let w: Vec<T> = to_weights::<T>(&case.weights);
     ensure!(w.iter().any(|x| x.f() > 0.0), "harness", "generator produced all-zero weights");
     let n = w.len();
     let base = Categorical::<T>::with_rng(w.clone(), SmallRng::seed_from_u64(case.salt));
@@ -157,7 +202,12 @@ where
             near_boundary = true;
             let kb = (cdf[bi] * T::den()).floor();
             let kb = if kb.is_finite() { kb as i64 } else { 0 };
-            (kb + case.bdelta as i64).clamp(0, kmax as i64) as u64
+            // small offsets are ulps; +-20/40/60 mean +-2^10/2^20/2^30 ulps
+            let off: i64 = match case.bdelta {
+                -2..=2 => case.bdelta as i64,
+                d => (d as i64).signum() * (1i64 << ((d as i64).abs() / 2)),
+            };
+            (kb + off).clamp(0, kmax as i64) as u64
         }
     };
     // the object under test: built from the *weights* with the crafted generator
@@ -257,7 +307,7 @@ fn measure_t<T: Fl>(case: &MeasureCase, cov: &mut Cov) -> CheckResult
 where
     rand_distr::StandardUniform: rand_distr::Distribution<T>,
 {
-    let w: Vec<T> = case.weights.iter().map(|r| T::of(r.0)).collect();
+    let w: Vec<T> = to_weights::<T>(&case.weights);
     let n = w.len();
     let g = (case.grid_log2 as u32).min(T::BITS);
     let cells = 1u64 << g;
